@@ -16,6 +16,7 @@ type c14Step struct {
 	Args []string `json:"args"` // subcommand, options, positionals ({name} = pool file)
 	In   string   `json:"in"`   // pool id piped to stdin
 	Out  bool     `json:"out,omitempty"`
+	Ext  string   `json:"ext,omitempty"` // with Out: extension of the -o file (gts derives the output format from .fasta/.gb/.genbank)
 	Aux  bool     `json:"aux,omitempty"` // another invocation sharing the cache directory (gts cache list / purge): run, not compared
 }
 
@@ -23,7 +24,7 @@ type c14Case struct {
 	Steps []c14Step `json:"steps"`
 }
 
-func (s c14Step) key() string { return fmt.Sprintf("%q|%s|%v", s.Args, s.In, s.Out) }
+func (s c14Step) key() string { return fmt.Sprintf("%q|%s|%v|%s", s.Args, s.In, s.Out, s.Ext) }
 
 var (
 	baselineMu sync.Mutex
@@ -42,7 +43,7 @@ func uncached(s c14Step) cliResult {
 	defer env.remove()
 	args := expandArgs(s.Args)
 	args = append([]string{args[0], "--no-cache"}, args[1:]...)
-	r = env.run(args, pool[s.In], s.Out)
+	r = env.run(args, pool[s.In], s.Out, s.Ext)
 	baselineMu.Lock()
 	baseline[s.key()] = r
 	baselineMu.Unlock()
@@ -62,10 +63,10 @@ func c14Check(c c14Case) *Violation {
 			panic("harness: unknown pool input " + s.In)
 		}
 		want := uncached(s)
-		got := env.run(expandArgs(s.Args), pool[s.In], s.Out)
+		got := env.run(expandArgs(s.Args), pool[s.In], s.Out, s.Ext)
 		hist := []string{}
 		for _, p := range c.Steps[:i+1] {
-			hist = append(hist, fmt.Sprintf("[gts %q < %s out=%v]", p.Args, p.In, p.Out))
+			hist = append(hist, fmt.Sprintf("[gts %q < %s out=%v%s]", p.Args, p.In, p.Out, p.Ext))
 		}
 		if got.Exit != want.Exit {
 			return viol("exit-status", "after %s: cached run exits %d, --no-cache exits %d (stderr %q vs %q)", strings.Join(hist, " ; "), got.Exit, want.Exit, clipStr(got.Stderr, 200), clipStr(want.Stderr, 200))
@@ -89,7 +90,7 @@ func c14Classify(c c14Case) (bool, []string) {
 		}
 		labels = append(labels, "cmd:"+s.Args[0])
 		if s.Out {
-			labels = append(labels, "-o")
+			labels = append(labels, "-o"+s.Ext)
 		}
 		if s.In == "bad" || s.In == "garbage" || s.In == "empty" {
 			labels = append(labels, "invalid-input")
@@ -180,7 +181,11 @@ func c14Gen(t *rapid.T) c14Case {
 			c.Steps = append(c.Steps, c14Step{Args: []string{"cache", rapid.SampledFrom([]string{"purge", "list", "path"}).Draw(t, "auxcmd")}, Aux: true})
 		}
 		v := vars[rapid.IntRange(0, len(vars)-1).Draw(t, "variant")]
-		c.Steps = append(c.Steps, c14Step{Args: append([]string{cmd}, v...), In: in, Out: rapid.IntRange(0, 4).Draw(t, "out") == 0})
+		st := c14Step{Args: append([]string{cmd}, v...), In: in, Out: rapid.IntRange(0, 3).Draw(t, "out") == 0}
+		if st.Out {
+			st.Ext = rapid.SampledFrom([]string{"", "", ".fasta", ".gb", ".genbank", ".txt"}).Draw(t, "ext")
+		}
+		c.Steps = append(c.Steps, st)
 	}
 	return c
 }
@@ -210,6 +215,9 @@ func TestC14(t *testing.T) {
 		}
 		for _, a := range vars {
 			sa := func(in string, out bool) c14Step { return c14Step{Args: append([]string{cmd}, a...), In: in, Out: out} }
+			se := func(in, ext string) c14Step {
+				return c14Step{Args: append([]string{cmd}, a...), In: in, Out: true, Ext: ext}
+			}
 			for _, c := range []c14Case{
 				{Steps: []c14Step{sa("bad", false), sa("bad", false)}},
 				{Steps: []c14Step{sa("garbage", false), sa("garbage", false), sa("small", false)}},
@@ -218,6 +226,8 @@ func TestC14(t *testing.T) {
 				{Steps: []c14Step{sa("small", false), sa("small", true)}},
 				{Steps: []c14Step{sa("small", false), {Args: []string{"cache", "purge"}, Aux: true}, sa("small", false), sa("small", false)}},
 				{Steps: []c14Step{sa("small", false), {Args: []string{"cache", "list"}, Aux: true}, sa("small", false)}},
+				{Steps: []c14Step{sa("small", false), se("small", ".fasta"), sa("small", false), se("small", ".gb")}},
+				{Steps: []c14Step{se("smallfa", ".gb"), sa("smallfa", false), se("smallfa", ".fasta"), se("smallfa", ".genbank")}},
 			} {
 				if !e.try(c) {
 					return
